@@ -288,6 +288,21 @@ def setup_from_parent_rules(chk, pid):
     stores = [e for e in S.events if e.kind == "store" and e.base[0] == "fld" and e.base[2] == "_universe" and e.base[1][0] == "fld" and e.base[1][2] == "parent"]
     ok = bool(stores) and stores[0].value == ("nan",) and stores[0].index[0] == "fld" and stores[0].index[2] == "name"
     chk.ob("C19.R4", ok, CORE, host, "dynamic-child-column", "a dynamically attached sub-strategy gets its price column in the parent's universe", where=fi.where)
+    from .algo_equiv import check_equiv
+
+    check_equiv(chk, "C19.R4", CORE, "StrategyBase", "setup_from_parent", SETUP_FROM_PARENT_REF, "dynamic-child-kwargs",
+                "a dynamically attached sub-strategy is set up with the parent's data and the parent's setup arguments, its OWN arguments overriding the parent's (so a child given its own "
+                "weights / risk / maturity tables reads those)", no_inline=("setup",))
+
+
+SETUP_FROM_PARENT_REF = '''
+def ref(self, **kwargs):
+    all_kwargs = self.parent._setup_kwargs.copy()
+    all_kwargs.update(kwargs)
+    self.setup(self.parent._original_data, **all_kwargs)
+    if self.name not in self.parent._universe:
+        self.parent._universe[self.name] = np.nan
+'''
 
 
 
